@@ -29,7 +29,13 @@ var initCmd = &cobra.Command{
 		if err != nil {
 			return errors.New("fail to get current path")
 		}
-		goitDir := filepath.Join(curPath, ".goit")
+		// the repository is built in a temporary directory and renamed to .goit at the end,
+		// so that an interrupted init never leaves a half-made .goit that blocks the next init
+		finalGoitDir := filepath.Join(curPath, ".goit")
+		goitDir := filepath.Join(curPath, ".goit.init")
+		if err := os.RemoveAll(goitDir); err != nil {
+			return fmt.Errorf("%w: %s", ErrIOHandling, goitDir)
+		}
 		if err := os.Mkdir(goitDir, os.ModePerm); err != nil {
 			return fmt.Errorf("%w: %s", ErrIOHandling, goitDir)
 		}
@@ -46,9 +52,9 @@ var initCmd = &cobra.Command{
 		if err != nil {
 			return fmt.Errorf("%w: %s", ErrIOHandling, headFile)
 		}
-		defer f.Close()
 		// set 'main' as default branch
 		if _, err := f.WriteString("ref: refs/heads/main"); err != nil {
+			f.Close()
 			return fmt.Errorf("%w: %s", ErrIOHandling, headFile)
 		}
 
@@ -76,8 +82,15 @@ var initCmd = &cobra.Command{
 			return fmt.Errorf("%w: %s", ErrIOHandling, tagsDir)
 		}
 
+		if err := f.Close(); err != nil {
+			return fmt.Errorf("%w: %s", ErrIOHandling, headFile)
+		}
+		if err := os.Rename(goitDir, finalGoitDir); err != nil {
+			return fmt.Errorf("%w: %s", ErrIOHandling, finalGoitDir)
+		}
+
 		// print out message for initialization success
-		fmt.Printf("Initialized empty Goit repository in %s\n", goitDir)
+		fmt.Printf("Initialized empty Goit repository in %s\n", finalGoitDir)
 
 		return nil
 	},
